@@ -46,6 +46,11 @@ func (r *resolver) resolveMessageDependencies(ms []filedesc.Message, mds []*desc
 			if f.L1.Kind, f.L1.Enum, f.L1.Message, err = r.findTarget(f.Kind(), f.Parent().FullName(), partialName(fd.GetTypeName())); err != nil {
 				return errors.New("message field %q cannot resolve type: %v", f.FullName(), err)
 			}
+			if fd.Type == nil && f.L1.Kind == protoreflect.MessageKind && f.L1.EditionFeatures.IsDelimitedEncoded {
+				// The kind was unspecified at declaration time, where delimited
+				// encoding is otherwise taken into account.
+				f.L1.Kind = protoreflect.GroupKind
+			}
 			if f.L1.Kind == protoreflect.GroupKind && (f.IsMap() || f.IsMapEntry()) {
 				// A map field might inherit delimited encoding from a file-wide default feature.
 				// But maps never actually use delimited encoding. (At least for now...)
@@ -78,6 +83,9 @@ func (r *resolver) resolveExtensionDependencies(xs []filedesc.Extension, xds []*
 		}
 		if x.L1.Kind, x.L2.Enum, x.L2.Message, err = r.findTarget(x.Kind(), x.Parent().FullName(), partialName(xd.GetTypeName())); err != nil {
 			return errors.New("extension field %q cannot resolve type: %v", x.FullName(), err)
+		}
+		if xd.Type == nil && x.L1.Kind == protoreflect.MessageKind && x.L1.EditionFeatures.IsDelimitedEncoded {
+			x.L1.Kind = protoreflect.GroupKind
 		}
 		if xd.DefaultValue != nil {
 			v, ev, err := unmarshalDefault(xd.GetDefaultValue(), x, r.allowUnresolvable)
